@@ -392,7 +392,8 @@ func (s *Rtmp2MpegtsRemuxer) feedVideo(msg base.RtmpMsg) {
 }
 
 func (s *Rtmp2MpegtsRemuxer) feedAudio(msg base.RtmpMsg) {
-	if len(msg.Payload) <= 2 {
+	// aac的头部是2字节，opus的头部是1字节，1字节的音频数据（比如opus的dtx帧）是合法的
+	if len(msg.Payload) < 2 || (len(msg.Payload) == 2 && msg.AudioCodecId() == base.RtmpSoundFormatAac) {
 		Log.Warnf("[%s] rtmp msg too short, ignore. header=%+v, payload=%s", s.uk, msg.Header, hex.Dump(msg.Payload))
 		return
 	}
